@@ -7,13 +7,13 @@ import vlib
 from vlib import log
 
 TINY = {"pg": {}, "blocks": [{"g": {}, "seqs": [1], "conc": 1, "tol": 0}], "retries": 0, "cretries": 0}
-KEEP = ("Config", "XCall", "XRet", "PStart", "PEnd", "XRestart", "W")
+KEEP = ("Config", "XCall", "XRet", "PStart", "PEnd", "XRestart", "W", "XFault", "XFaultClear")
 STC = {"NotStarted": "NS", "Running": "RU", "Completed": "CO", "Failed": "FA"}
 
 
 def fam_ws(rnd, n):
     res = []
-    ops1 = ["start", "start", "race2", "race3", "wait", "wait", "waitto", "plan", "status", "bgwait"]
+    ops1 = ["start", "start", "race2", "race3", "racef3", "racef4", "wait", "wait", "waitto", "plan", "status", "bgwait"]
     for i in range(n):
         h = ["submit:1"] if rnd.random() < 0.85 else []
         ln = rnd.randint(3, 9)
@@ -38,6 +38,10 @@ def fam_ws(rnd, n):
         if rnd.random() < 0.5:
             sc["lagidx"] = True
         res.append(sc)
+    # racing Starts behind a Start whose storage read fails
+    for i in range(10):
+        res.append({"kind": "ws", "shape": TINY, "mode": "free", "api": ["submit:1", "racef%d:1" % rnd.choice([3, 3, 4, 5]), "wait:1", "start:1"], "tag": "ws-racef",
+                    "out": {}, "lat": {"b1.s1.a1": [rnd.choice([0, 500])]}})
     # every kind of restart at crash points spread over a started plan's write log, whatever the sample
     for kind in ("restart", "restart-norec", "restart-aged", "restart-norec-aged"):
         for k in (15, 35, 55, 75, 100):
@@ -80,6 +84,8 @@ def translate(events):
                 if out and out[-1] == ln:
                     continue     # the engine repeats many writes
                 out.append(ln)
+            elif k in ("XFault", "XFaultClear"):
+                out.append({"ev": k, "p": e["p"]})
             elif k == "XRestart":
                 out.append({"ev": "XRestart", "st": e["st"], "ad": e["ad"], "idx": e["idx"], "aged": [bool(x) for x in e["aged"]], "recovery": bool(e["recovery"])})
         if out and out[0]["ev"] == "Config":
@@ -88,10 +94,28 @@ def translate(events):
     return traces, extra
 
 
-def validate(traces, tag="exec"):
-    """Validate the traces against Exec.tla. Returns (rejected: [{scn, reached_line, line}], stats)."""
+def validate(traces, tag="exec", parts=4):
+    """Validate the traces against Exec.tla (in `parts` TLC processes side by side)."""
+    import concurrent.futures
+    items = list(traces.items())
+    if len(items) < 8 or parts <= 1:
+        return _validate(traces, items, tag)
+    chunks = [items[i::parts] for i in range(parts)]
+    with concurrent.futures.ThreadPoolExecutor(max_workers=parts) as ex:
+        rs = list(ex.map(lambda c: _validate(traces, c, tag), chunks))
     rejected, stats = [], {"lines": 0, "states": 0, "wall": 0.0, "runs": 0}
-    todo = list(traces.items())
+    for rj, st in rs:
+        rejected += rj
+        for k in ("lines", "states", "runs"):
+            stats[k] += st[k]
+        stats["wall"] = max(stats["wall"], st["wall"])
+    return rejected, stats
+
+
+def _validate(traces, todo, tag="exec"):
+    """Returns (rejected: [{scn, line_index, line}], stats)."""
+    rejected, stats = [], {"lines": 0, "states": 0, "wall": 0.0, "runs": 0}
+    todo = list(todo)
     while todo:
         d = vlib.scratch(tag)
         vlib.copy_specs(d, ["Exec.tla", "ExecTrace.tla", "ExecTrace.cfg"])
@@ -143,7 +167,7 @@ def run(prop, tier, seed, scenarios=None):
     """Returns (violations: list of replay payloads, coverage dict)."""
     rnd = random.Random(seed * 104729 + 12)
     if scenarios is None:
-        scenarios = fam_ws(rnd, 160 if tier == "quick" else 1200)
+        scenarios = fam_ws(rnd, 130 if tier == "quick" else 1200)
     for i, s in enumerate(scenarios):
         s.setdefault("id", 50000 + i)
         s.setdefault("seed", seed * 1000 + i)
